@@ -1,7 +1,7 @@
 (* C05/Examples.v — non-vacuity: concrete instances of the hypotheses of the
    C05 theorems, and a few examples run through the model. *)
 From Coq Require Import ZArith.
-From XV Require Import lib.Bytes lib.Lts gen.SessOut C05.Model C05.Spec C05.Proofs.
+From XV Require Import lib.Bytes lib.Lts gen.SessOut C05.Model C05.Spec C05.Proofs C05.Scoping.
 Open Scope Z_scope.
 
 Definition nm (s l : string) : name := mkname (str s) (str l).
@@ -161,3 +161,26 @@ Example ex_writerto_pending :
   wire (fst (run_call c2s o1 (CSend (mkreader (tokens_of ex_small ++ []) false)))) =
     map WTok (tokens_of (spec_top c2s (str "A") ex_small) ++ tokens_of (spec_top c2s (str "B") ex_small)).
 Proof. vm_compute. repeat split; reflexivity. Qed.
+
+(* prefix scoping: <m><a xmlns:p="urn:1" p:k="1"><b xmlns:p="urn:2" p:k="2"/><c p:k="3"/></a><d xmlns:p="urn:3" p:k="4"/><e p:k="5"/></m>
+   - b shadows p, c sees a's binding again, d re-uses p on a sibling, e has no
+   binding in scope (its attribute is left as it is) *)
+Definition ex_scope_raw : tree :=
+  Elem (nm "" "m") []
+    [Elem (nm "" "a") [at_ "xmlns" "p" "urn:1"; at_ "p" "k" "1"]
+       [Elem (nm "" "b") [at_ "xmlns" "p" "urn:2"; at_ "p" "k" "2"] []; Elem (nm "" "c") [at_ "p" "k" "3"] []];
+     Elem (nm "" "d") [at_ "p" "k" "4"; at_ "xmlns" "p" "urn:3"] [];
+     Elem (nm "" "e") [at_ "p" "k" "5"] []].
+
+Example ex_scope_meaning :
+  scoped_tree [] ex_scope_raw =
+  Elem (nm "" "m") []
+    [Elem (nm "" "a") [at_ "urn:1" "k" "1"]
+       [Elem (nm "" "b") [at_ "urn:2" "k" "2"] []; Elem (nm "" "c") [at_ "urn:1" "k" "3"] []];
+     Elem (nm "" "d") [at_ "urn:3" "k" "4"] [];
+     Elem (nm "" "e") [at_ "p" "k" "5"] []].
+Proof. vm_compute. reflexivity. Qed.
+
+Example ex_scope_stack :
+  resolve_raw 0 [] (tokens_of ex_scope_raw) = tokens_of (scoped_tree [] ex_scope_raw).
+Proof. vm_compute. reflexivity. Qed.
